@@ -250,8 +250,12 @@ func (itr *BrokerBatchShardFamilyIterator) HasNextFamily() bool {
 	itr.groupStart = itr.groupEnd
 	itr.groupFamilyTime = itr.familyTimeOfTimestamp(firstTimestamp)
 
+	// NOTE: first row always belongs to its own family group, for timestamp before 1970 the calculated time range
+	// maybe doesn't contain the timestamp itself, then the group is empty and all remaining rows are dropped.
+	itr.groupEnd++
 	for itr.groupEnd < len(itr.rows) {
-		if !timeRange.Contains(itr.rows[itr.groupEnd].m.Timestamp()) {
+		timestamp := itr.rows[itr.groupEnd].m.Timestamp()
+		if !timeRange.Contains(timestamp) && itr.familyTimeOfTimestamp(timestamp) != itr.groupFamilyTime {
 			break
 		}
 		itr.groupEnd++
